@@ -7,7 +7,8 @@ false alarm to be investigated. Scratch copies are removed."""
 import os, shutil, subprocess, sys, tempfile, json
 from concurrent.futures import ThreadPoolExecutor
 env = dict(os.environ, GOFLAGS='-mod=mod', GOPROXY='off', GOSUMDB='off', GOTOOLCHAIN='local'); env.pop('GOWORK', None)
-props = subprocess.run(['/verif/bin/fv', 'list'], capture_output=True, text=True).stdout.split()
+FV = os.environ.get('FV_BIN', '/verif/bin/fv')
+props = subprocess.run([FV, 'list'], capture_output=True, text=True).stdout.split()
 def one(d):
     tmp = tempfile.mkdtemp(prefix='fvref.')
     try:
@@ -24,8 +25,11 @@ def one(d):
             if b.returncode != 0:
                 return d, 'DOES NOT BUILD: ' + b.stderr.strip()[-300:], []
         alarms = []
-        for p in props:
-            c = subprocess.run(['/verif/bin/fv', 'check', '-prop', p], env=dict(env, FV_REPO=repo, FV_VERIF=verif), capture_output=True, text=True)
+        def runp(p):
+            return p, subprocess.run([FV, 'check', '-prop', p], env=dict(env, FV_REPO=repo, FV_VERIF=verif), capture_output=True, text=True)
+        with ThreadPoolExecutor(max_workers=4) as px:
+            results = list(px.map(runp, props))
+        for p, c in results:
             if c.returncode != 0:
                 for l in c.stdout.splitlines():
                     if l.startswith('  rule='):
@@ -36,7 +40,7 @@ def one(d):
     finally:
         shutil.rmtree(tmp, ignore_errors=True)
 dirs = [d for d in (sys.argv[1:] or sorted(__import__("glob").glob("/verif/refactors/*"))) if os.path.exists(os.path.join(d, 'patch.diff'))]
-with ThreadPoolExecutor(max_workers=6) as ex:
+with ThreadPoolExecutor(max_workers=4) as ex:
     for d, status, alarms in ex.map(one, dirs):
         print(f'{d}: {status}; alarms={len(alarms)}')
         for a in alarms:
